@@ -137,6 +137,15 @@ FACTS = {
             (["paths", "/items", "get", "responses", "default", "content", "application/json", "schema", "properties", "value", "title"], "Item value"),
         ],
     },
+    "same-file-name-in-two-directories": {
+        "files": {"main.oal": 'use "v1/model.oal" as a;\nuse "v2/model.oal" as b;\nres /a on get -> <a.tree>;\nres /b on get -> <b.tree>;\n',
+                  "v1/model.oal": "let tree = { 'id int, 'kids [tree] };\n", "v2/model.oal": "let tree = { 'id str, 'kids [tree] };\n"},
+        "facts": [
+            (["paths", "/a", "get", "responses", "default", "content", "application/json", "schema"], ("refers_to_schema_with_property_type", ("id", "integer"))),
+            (["paths", "/b", "get", "responses", "default", "content", "application/json", "schema"], ("refers_to_schema_with_property_type", ("id", "string"))),
+            (["components", "schemas"], ("count", 2)),
+        ],
+    },
     "same-status-two-media": {
         "files": {"main.oal": "res /b on get -> <status=200, media=\"text/plain\", str> :: <status=200, media=\"application/json\", { 'a num }>;\n"},
         "facts": [(["paths", "/b", "get", "responses", "200", "content"], ("keys", ["text/plain", "application/json"]))],
@@ -186,6 +195,14 @@ def check_fact(doc, path, want):
         if kind == "params":
             ps = sorted((p.get("in"), p.get("name"), bool(p.get("required", False))) for p in (got or []))
             return None if ps == sorted(arg) else "%s are %s, the source declares %s" % (where, ps, sorted(arg))
+        if kind == "count":
+            n = len(got) if isinstance(got, (dict, list)) else None
+            return None if n == arg else "%s has %s entries, the source declares %d" % (where, n, arg)
+        if kind == "refers_to_schema_with_property_type":
+            ref = (got or {}).get("$ref", "") if isinstance(got, dict) else ""
+            sch = at(doc, ["components", "schemas", ref.rsplit("/", 1)[-1]]) if ref else got
+            t = (((sch or {}).get("properties") or {}).get(arg[0]) or {}).get("type")
+            return None if t == arg[1] else "%s refers to a schema whose '%s' is %r, the declaration it names says %r" % (where, arg[0], t, arg[1])
         if kind == "refers_to_schema_with_property":
             ref = (got or {}).get("$ref", "") if isinstance(got, dict) else ""
             sch = at(doc, ["components", "schemas", ref.rsplit("/", 1)[-1]]) if ref else got
